@@ -139,10 +139,12 @@ LEN_CALLS = ('core::slice::len', 'std::vec::Vec::len', 'core::str::len')
 class Sym:
     """evaluator of one body"""
 
-    def __init__(self, prog, body, alters_buffer=()):
+    def __init__(self, prog, body, alters_buffer=(), inline=False, depth=0):
         self.prog = prog
         self.b = body
         self.alters_buffer = set(alters_buffer)   # names of local functions that refill / alter the reader buffer
+        self.inline = inline      # evaluate small loop-free single-path crate callees in place (helper extraction is transparent)
+        self.depth = depth
 
     # ---- values
     def local(self, p, l):
@@ -283,6 +285,24 @@ class Sym:
         if c is not None and (c.is_('std::io::BufRead::consume', 'buffer_redux::BufReader::make_room', 'buffer_redux::BufReader::reserve',
                                     'std::io::Seek::seek', 'buffer_redux::BufReader::read_into_buf') or c.name in self.alters_buffer):
             p.env['#buf'] = p.env.get('#buf', 0) + 1
+        if self.inline and c is not None and self.depth < 3:
+            cb = self.prog.local_callee_body(c)
+            if cb is not None and len(cb.blocks) <= 14 and not cb.cfg.natural_loops() and cb.arg_count == len(args):
+                sub = Sym(self.prog, cb, self.alters_buffer, inline=True, depth=self.depth + 1)
+                init = Path()
+                for i, a in enumerate(args):
+                    init.env[i + 1] = a
+                init.env['#buf'] = p.env.get('#buf', 0)
+                init.store = dict(p.store)
+                qs = [q for q in sub.run(0, init=init) if q.end[0] == 'return']
+                if len(qs) == 1:
+                    q = qs[0]
+                    p.store = q.store
+                    p.env['#buf'] = q.env.get('#buf', 0)
+                    p.effects += [(blk, t2, a2) for (_, t2, a2) in q.effects]
+                    p.writes += [(blk, loc, v) for (_, loc, v) in q.writes]
+                    p.conds += [(blk, d, tk) for (_, d, tk) in q.conds]
+                    return q.env.get(0, Aff.sym(('call', c.path, blk)))
         nm = c.path if c is not None else 'indirect'
         return Aff.sym(('call', nm, blk))
 
